@@ -201,7 +201,10 @@ def c10(t: tr.Trace, d: dict, maxfun: int, abs_tol=1e-12, rel_tol=1e-20, max_uns
             f0m = _core.key2f(ctrl[0][3]) if ctrl else float("nan")
             thr = max(abs_tol, rel_tol * f0m) if (f0m == f0m and abs(f0m) != float("inf")) else abs_tol
         if not (obj <= thr * (1 + 1e-12)):
-            out.append(("C10:small-but-not-small|" + ctxt, "flag 0 'sufficiently small' but obj=%r > max(abs_tol, rel_tol*f(x0))=%r" % (obj, thr)))
+            # f(x0) not finite (a fault at the very first evaluation): the documented threshold degenerates to abs_tol; a
+            # hard-restarted run measures rel_tol against the objective at ITS starting point instead — named separately
+            x0tag = "" if (f0 == f0 and abs(f0) != float("inf")) else "x0-nonfinite|"
+            out.append(("C10:small-but-not-small|" + x0tag + ctxt, "flag 0 'sufficiently small' but obj=%r > max(abs_tol, rel_tol*f(x0))=%r (f(x0)=%r)" % (obj, thr, f0)))
     if flag == 0 and cls == "rhoend":
         exts = [e for e in t.events if e[0] == "ext" and e[2] == "rhoend"]
         if exts:
